@@ -220,26 +220,27 @@ func decodeNumericShort(raw []byte, header uint16) interface{} {
 	return computeNumeric(digits, weight, sign)
 }
 
+// decodeNumericLong decodes the on-disk NumericLong layout: uint16 n_sign_dscale
+// (sign 0x0000 / 0x4000, dscale in the low 14 bits), int16 n_weight, then the
+// base-10000 digits up to the end of the value.
 func decodeNumericLong(raw []byte) interface{} {
-	if len(raw) < 8 {
+	if len(raw) < 4 {
 		return nil
 	}
-	ndigits := int(u16(raw, 0))
-	weight := int(i16(raw, 2))
 	sign := 1
-	if u16(raw, 4) == 0x4000 {
+	if u16(raw, 0)&0xC000 == 0x4000 {
 		sign = -1
 	}
+	weight := int(i16(raw, 2))
+
+	ndigits := (len(raw) - 4) / 2
 	if ndigits == 0 {
 		return 0
-	}
-	if len(raw) < 8+ndigits*2 {
-		return nil
 	}
 
 	digits := make([]int, ndigits)
 	for i := 0; i < ndigits; i++ {
-		digits[i] = int(u16(raw, 8+i*2))
+		digits[i] = int(u16(raw, 4+i*2))
 	}
 	return computeNumeric(digits, weight, sign)
 }
